@@ -610,7 +610,8 @@ def main():
                       "energy polynomials / log2 of qenergy are float64 functions: entries are compared with an independent float64 recomputation, "
                       "totals with exact rational sums of the printed entries (Coq QArith)",
                       "QTools(model) needs four Keras-2 accessors (harness/env.install_keras2_graph_shims, see C18): with them the real pipeline runs on generated models; energy_estimate is also run on synthetic layer maps with stand-in layers to reach option combinations quickly"]
-  return rep.finish(vlib.TRUSTED_COMMON + ["model QTools/OpCount.v is hand-written; tie = comparison with get_operation_count / Keras on every generated geometry"])
+  return rep.finish(vlib.TRUSTED_COMMON + ["translators tools/translate/{opcountgen,energygen,memgen,extractgen}.py regenerate coq/gen/{OpCountGen,EnergyGen,MemGen,ExtractGen}.v; Link/*Link.v prove them equal to QTools/OpCount.v and QTools/Energy.v",
+                                          "model QTools/OpCount.v is hand-written; tie = comparison with get_operation_count / Keras on every generated geometry"])
 
 
 if __name__ == "__main__":
